@@ -454,3 +454,88 @@ def rule_no_stale_local_alias(ctx, rep, rid: str, floor: int = 3) -> None:
             rep.bad(rid, key, f"{f.qual}: `{name}` aliases {norm(a.value)} (line {a.lineno}) and is used again at line {use.line} after {short(c, 50)} (line {c.lineno}) may have run script code; {a.value.attr} is re-bound at {rebound[a.value.attr]} (e.g. by a length assignment in the callback), so the local is a detached list", f"{f.module.rel}:{use.line}")
         else:
             rep.ok(rid, key, {"reads": len(reads), "reentrant_sites": len(sites), "aliases": len(alias_assigns)})
+
+
+# ---- printing an integral double through int() ---------------------------------------------------------
+def rule_integral_double_printing(ctx, rep, rid: str) -> None:
+    """An integral double beyond 2**53 has an exact integer value with up to 309 digits; ECMAScript prints the
+    shortest digits that round-trip, padded with zeros (2**60 -> 1152921504606847000), and switches to exponent
+    notation at 1e21.  `str(int(x))` prints the exact value.  Where a float is printed as an integer because it
+    `is_integer()`, the magnitude has to be bounded by 2**53 (below that both spellings agree), or the text has to
+    come from the engine's own number formatter.  The same goes for str()/repr() of a float: the host's spelling
+    (1e-07, 1e+16 thresholds) is not ECMAScript's."""
+    rep.rule(rid, "no number-to-text path prints an integral float through int() without bounding it by 2**53, and none formats a float with the host's str()/repr(): decimal text of a Number comes from the engine's formatter", floor=3)
+    n_sites = 0
+    for f in ctx.tree.funcs:
+        if f.module.name not in ("vm", "values", "context") or isinstance(f.node, ast.Lambda):
+            continue
+        for n in f.own_nodes():
+            if not (isinstance(n, ast.Call) and isinstance(n.func, ast.Name) and n.func.id == "int" and len(n.args) == 1 and isinstance(n.args[0], ast.Name)):
+                continue
+            v = n.args[0].id
+            gs = [(norm(t), pol) for t, pol in guards_of(n, f.node)]
+            if not any(pol and f"{v}.is_integer()" in t for t, pol in gs):
+                continue
+            # does the integer become text?  str(int(v)) / f"{int(v)}" / v = int(v) followed by str(v)
+            p = getattr(n, "_parent", None)
+            texty = (isinstance(p, ast.Call) and norm(p.func) == "str") or isinstance(p, ast.FormattedValue)
+            if isinstance(p, ast.Assign) and isinstance(p.targets[0], ast.Name):
+                w = p.targets[0].id
+                texty = any(isinstance(x, ast.Call) and norm(x.func) == "str" and x.args and norm(x.args[0]) == w for x in f.own_nodes()) or any(isinstance(x, ast.FormattedValue) and norm(x.value) == w for x in f.own_nodes())
+            if not texty:
+                continue
+            n_sites += 1
+            key = f"{f.qual}:int({v})->text"
+            bounded = any(pol and ("2**53" in t.replace(" ", "") or "9007199254740992" in t or "9007199254740991" in t or "MAX_SAFE" in t) and v in t for t, pol in gs)
+            if bounded:
+                rep.ok(rid, key, {"bound": "2**53"})
+            else:
+                rep.bad(rid, key, f"{f.qual} prints the float `{v}` as int({v}) because it is_integer(), without bounding it by 2**53: doubles beyond that print their exact integer value (2**60 -> 1152921504606846976) where ECMAScript prints the shortest round-tripping digits (1152921504606847000), and 1e21 and above must switch to exponent notation", f"{f.module.rel}:{n.lineno}")
+    # host str()/repr() of the receiver number in the number-method factories and in to_string
+    for f in ctx.tree.funcs:
+        if isinstance(f.node, ast.Lambda) or f.module.name not in ("vm", "values", "context"):
+            continue
+        in_number_family = f.name == "to_string" or any(g.name.startswith("_make_number_method") for g in _ancestors(f))
+        if not in_number_family:
+            continue
+        for n in f.own_nodes():
+            if isinstance(n, ast.Call) and isinstance(n.func, ast.Name) and n.func.id in ("str", "repr") and len(n.args) == 1 and isinstance(n.args[0], ast.Name):
+                v = n.args[0].id
+                gs = [(norm(t), pol) for t, pol in guards_of(n, f.node)]
+                if any(pol and f"isinstance({v}, int)" in t for t, pol in gs):
+                    continue
+                # is v a Number of either representation?  the receiver `n` of the number methods, or a value
+                # guarded as float
+                is_number = (v == "n" and f.name != "to_string") or any(pol and "float" in t and v in t for t, pol in gs)
+                if not is_number:
+                    continue
+                n_sites += 1
+                key = f"{f.qual}:{n.func.id}({v})"
+                rep.bad(rid, key, f"{f.qual} formats the Number `{v}` with the host's {n.func.id}(): 1e-7 prints as 1e-07, exponent notation starts at 1e16 instead of 1e21, integral floats print a trailing .0", f"{f.module.rel}:{n.lineno}")
+    rep.ok(rid, "number-text-paths", {"sites_examined": n_sites})
+    vals = ctx.tree.mod("values")
+    ts = vals.functions.get("to_string")
+    if ts is None:
+        raise AnalysisError("to_string not found")
+    fmt = [c for c in ts.own_nodes() if isinstance(c, ast.Call) and isinstance(c.func, ast.Name) and c.func.id.startswith("_float_to")]
+    if fmt:
+        rep.ok(rid, f"{ts.qual}:floats-through-the-formatter", {"formatter": fmt[0].func.id})
+    else:
+        rep.bad(rid, f"{ts.qual}:floats-through-the-formatter", "to_string no longer hands floats to the engine's number formatter", ts.loc)
+    int_branch = [n for n in ts.own_nodes() if isinstance(n, ast.Call) and norm(n.func) == "str" and n.args and isinstance(n.args[0], ast.Name)]
+    for c in int_branch:
+        v = c.args[0].id
+        key = f"{ts.qual}:str({v})"
+        # every assignment of v inside to_string must not come from int(<float>)
+        bad = [a for a in ts.own_nodes() if isinstance(a, ast.Assign) and any(isinstance(t, ast.Name) and t.id == v for t in a.targets) and isinstance(a.value, ast.Call) and norm(a.value.func) == "int"]
+        if bad and not any(pol and "2**53" in norm(t).replace(" ", "") for t, pol in guards_of(bad[0], ts.node)):
+            rep.bad(rid, key, f"to_string turns `{v}` into an int (line {bad[0].lineno}) and prints it with str(): integral doubles beyond 2**53 then print their exact digits instead of the shortest round-tripping ones", f"{vals.rel}:{bad[0].lineno}")
+        else:
+            rep.ok(rid, key)
+
+
+def _ancestors(f: Func):
+    g = f
+    while g is not None:
+        yield g
+        g = g.parent
